@@ -155,7 +155,10 @@ def run(ctx, progs):
         for nm, idx in (("copy_slice", 3), ("copy_slice_volatile", 3)):
             b = prog.one(name=nm, path_re=r"copy_slice_impl::" + nm + "$")
             rt = b.return_terms()
-            ctx.ob("R4.2.helper_returns_count", b.key, bool(rt) and all(unref(t)[:2] == ('param', idx) for _p, t in rt), b.where(), "returns its `total` argument")
+            returns_unit = b.j.get("sig", "").rstrip().endswith("-> ()") or "->" not in b.j.get("sig", "")
+            # copy_slice's count is what its callers report; the inner volatile routine may equally well return nothing
+            ok_h = (bool(rt) and all(unref(t)[:2] == ('param', idx) for _p, t in rt)) or (nm == "copy_slice_volatile" and returns_unit)
+            ctx.ob("R4.2.helper_returns_count", b.key, ok_h, b.where(), "returns its `total` argument" + (" (or nothing: no caller can rely on it)" if nm == "copy_slice_volatile" else ""))
         for nm in ("copy_from_volatile_slice", "copy_to_volatile_slice"):
             b = prog.one(name=nm, path_re=r"copy_slice_impl::" + nm + "$")
             rt = b.return_terms()
